@@ -5,6 +5,10 @@ V = os.path.dirname(os.path.dirname(os.path.abspath(__file__)))
 ids = [json.loads(l)["id"] for l in open(os.path.join(V, "properties.jsonl"))]
 
 CHECKS = {
+ "C10": dict(cat="fault_enumeration", design="§4 C10",
+   technique="exhaustive enumeration of (declaration context x type x write form x write context) programs with a reject-or-unchanged oracle",
+   text="All 679 applicable combinations of declaration context (module, function, block, class name, imported module, imported member), constant type (int, str, bool, list, optional, object), write form (=, five op-assigns, ?= in four positions, modify, index/field assignment and op-assign, loop counter with and without step, unpacking, typed re-declaration) and write context (same scope, if block, from loop, while loop, nested function, closure in a block, method) are generated in both tiers; each must be rejected at compile time without running, or run with the declaring scope and a closure created before the write still observing the initializer. Complete for this catalogue; forms outside it are not covered.",
+   note="For imported members the repository's own test documents that `name = v` in the importer creates a local shadow; the oracle there requires the exporting module's value (read through the module and through an exported getter) to stay unchanged."),
  "C09": dict(cat="exploration", design="§4 C09",
    technique="generated programs + all-paths structural validity predicate over the emitted bytecode (both outcomes of every conditional jump explored), plus a run-time stack-mismatch observation",
    text="Every function emitted for the enumerated control-flow skeletons (8 loop kinds x wrappers to depth 2 quick / 3 thorough x break/continue/return x module/function), the example corpus and Hypothesis programs of C01/C07/C08/C12/C13/C15/C17 is decoded from the human-readable bytecode and explored over all branch outcomes: jump targets inside the function, no fall-off, done/jmp_pop never close more frames than open, equal open-frame count on every path into an instruction; the program is also run and must not report STACK MISMATCH. Exploration over programs; exhaustive over the paths of each analysed function.",
